@@ -323,6 +323,28 @@ def run_case(case):
                     viol.append(dict(mech='compare:walltime-difference-reported', msg='only %s differs but compare says different' % name))
                 ctypes.memmove(addr, ybytes, len(ybytes))
                 continue
+            # ... but only where the raw bit flip leaves a VALID state: not in fields that give the length of a persisted array (the stream writer
+            # trusts them), the particle counts, the module selectors (a flipped selector can demand a tree for a box that was never configured),
+            # and not at all on states that carry a tree (box geometry, root counts)
+            has_tree_ = spec.get('gravity') == 'tree' or spec.get('collision') in ('tree', 'linetree')
+            count_fields = set(row_[4] for row_ in ft.values() if row_[0] in (9, 10, 11))
+            valid_ = (not has_tree_) and off not in count_fields and name not in ('N', 'N_var', 'N_active', 'N_var_config', 'gravity', 'collision', 'boundary', 'integrator') and 'N_allocated' not in name
+            if changed and valid_ and dtype in (0, 1, 2, 3, 4, 5, 7, 15):
+                # a copy of the perturbed state carries the perturbed field: copies are equal to their source in EVERY persisted scalar, also those
+                # that the state generator never moves off their default (message handling, display / output settings, seeds, counters)
+                try:
+                    z = y.copy()
+                    cz = rt.sabin_sim(z, drop_walltime=False)
+                    counters['copies_of_a_state_with_one_field_off_default'] = counters.get('copies_of_a_state_with_one_field_off_default', 0) + 1
+                    lost = [str(k_) for k_ in changed if cz.get(k_) != cy.get(k_)]
+                    if lost:
+                        viol.append(dict(mech='copy:does-not-carry-field:%s' % ','.join(lost)[:60], msg='source with %s changed (%s): its copy differs from it in %r' % (name, did, lost)))
+                    elif cdiff(y, z) or cdiff(z, y) or not (y == z):
+                        if not [k_ for k_ in rt.diff_keys(rt.sabin_sim(y), rt.sabin_sim(z))]:
+                            viol.append(dict(mech='compare:equal-states-reported-different:copy-of-state-with-%s-off-default' % name, msg='copy of a source with %s changed (%s) compares different although the persisted content is equal' % (name, did)))
+                    del z
+                except RuntimeError as e_:
+                    counters['copies_of_perturbed_state_refused'] = counters.get('copies_of_perturbed_state_refused', 0) + 1
             if dtype not in (9, 10, 11, 16):
                 ctypes.memmove(addr, ybytes, len(ybytes))      # undo the raw perturbation before the copy is freed
             if not changed:
